@@ -62,7 +62,7 @@ def gen_invalid(draw, G):
         return None
     s = draw(st.sampled_from(spaces))
     p = list(s.path)
-    k = draw(st.integers(0, 30))
+    k = draw(st.integers(0, 34))
     bad = draw(st.sampled_from(BAD_NAMES))
     if k == 0:
         return ["new_space_raw", draw(st.sampled_from([[], p])), bad, None, None]
@@ -170,6 +170,21 @@ def gen_invalid(draw, G):
                          ["new_space_raw", [], "Wa" + t, None, None], ["set_ref", ["Ya" + t], "rz", ["v", 3], None],
                          ["new_space_raw", [], "Sa" + t, [["Xa" + t], ["Ya" + t]], None],
                          ["set_ref", ["Xa" + t], "rz", ["o", ["Wa" + t]], "relative"]]]
+    if k in (31, 32):
+        # deleting a space that keeps the base orders of two sub spaces consistent: refused, nothing deleted
+        t = "%d" % draw(st.integers(0, 99))
+        A, B, P, Q, R, R2, M, K = (x + t for x in ("La", "Lb", "Lp", "Lq", "Lr", "Lx", "Lm", "Lk"))
+        return ["_seq", [["new_space_raw", [], A, None, None], ["new_space_raw", [], B, None, None],
+                         ["new_space_raw", [], P, [[A]], None], ["new_space_raw", [], Q, [[B]], None],
+                         ["new_space_raw", [], R, [[B], [A]], None], ["new_space_raw", [], R2, [[B], [A]], None],
+                         ["new_space_raw", [], M, [[P], [Q], [R2]], None], ["new_space_raw", [], K, [[M], [R]], None],
+                         ["del_space", [R2]]]]
+    if k in (33, 34):
+        # a cells made from a function without retrievable source holds an assigned value; renaming it is
+        # refused (the function cannot be given the new name) before anything changes
+        t = "%d" % draw(st.integers(0, 99))
+        return ["_seq", [["new_cells_raw", p, "f", {"obj": "no_source"}], ["set_value_raw", p, "f", "(1,)", "5"],
+                         ["rename_cells", p, "f", "nsrc" + t]]]
     if k in (29, 30):
         # None is allowed at an enclosing level and explicitly not for this cells, which holds an assigned value:
         # assigning None is refused before the value is touched
